@@ -33,6 +33,12 @@ CHECKS = {
  "C09": ("model-based PBT (proptest) with hand-built controller credentials (arbitrary descriptor lists vs contexts), direct __check_auth probes",
          "On the self-administered TimelockController example (0..2 executors) generated scheduling histories put the self-administration operation in every state, then adversarial probes invoke admin-only entry points with controller credentials carrying a generated Vec<OperationMeta> (0..3 descriptors, perturbed predecessor/salt/executor) directly, through a forwarder and through try_invoke_contract_check_auth with foreign/create contexts: an admin call takes effect only if a matching operation was Ready and is consumed by that very call with an executor's entry when executors exist; schedule/cancel/execute need role plus that account's entry; the documented happy path succeeds.",
          "DESIGN.md §4 C09"),
+ "C10": ("model-based stateful PBT (proptest) against a plain id->owner map with full / windowed owner scans after every step, bucket- and batch-edge selectors, 32000-token batches",
+         "Generated mint (sequential, explicit fresh ids, batches of 1..32000 incl. bucket-edge sizes and refused 0 / 32001) / transfer / transfer_from / burn / burn_from histories with first/last/bucket-edge/burned/fresh token selectors on the three NFT examples and harness twins (base, enumerable, consecutive): after every step owner_of equals the reference map for every existing id (bulk reads; windows plus final full scan for giant batches), fails for burned and unissued ids, balances equal owned counts, no other token changed owner, sequential ids are never reused, token_uri exists exactly for existing ids, and the enumerable global and per-owner index lists contain each token exactly once with gap-free indices.",
+         "DESIGN.md §4 C10"),
+ "C11": ("model-based stateful PBT (proptest) with explicit authorization entries, actor-role selectors and approval-expiry boundary probes",
+         "Generated approve / approve_for_all / revoke / transfer / transfer_from / burn / burn_from / advance histories on the three NFT flavours, actors chosen by standing (owner, approved, operator, former owner, former approved, stranger), live_until from the ledger lattice, each call with an auth mode: a token moves or burns only with the exact entry of its owner, its live approved account or a live operator of the current owner; approvals are set only by owner or live operator, cleared by every transfer/burn, never survive an ownership change (round-trip probe) and operator approvals never reach another owner's tokens; get_approved / is_approved_for_all equal the model at every ledger.",
+         "DESIGN.md §4 C11"),
  "C12": ("exhaustive boundary lattice (deterministic) + PBT (proptest) against an exact num-bigint oracle, constructed near-bound triples",
          "All triples of a 67-value (thorough 129) i128 boundary lattice x 3 roundings x {checked, panicking} evaluated exhaustively, plus generated triples of every bit length and constructed triples around the i128 fit boundary, the I256 variants on products fitting 256 bits, and Wad checked_mul/checked_div/from_ratio/pow/checked_pow: each result equals the exactly rounded BigInt quotient whenever it fits (also when x*y does not), fails exactly when d = 0 or it does not fit, panicking and checked variants agree, pow fails exactly when checked_pow is None.",
          "DESIGN.md §4 C12"),
